@@ -155,6 +155,24 @@ func ReturnMayBeNilError(ret *ssa.Return, idx int) bool {
 	if FactsAt(ret).Has(Expr(ret.Results[idx]), "!=", "nil") {
 		return false
 	}
+	// with a defer in the function the results travel through result cells: `*r = v; rundefers; return *r`.
+	// Judge the value stored last in the returning block.
+	if u, ok := ret.Results[idx].(*ssa.UnOp); ok {
+		if a, ok := u.X.(*ssa.Alloc); ok {
+			var last *ssa.Store
+			for _, in := range ret.Block().Instrs {
+				if st, ok := in.(*ssa.Store); ok && st.Addr == ssa.Value(a) {
+					last = st
+				}
+			}
+			if last != nil {
+				if FactsAt(last).Has(Expr(last.Val), "!=", "nil") {
+					return false
+				}
+				return mayBeNil(last.Val, map[ssa.Value]bool{})
+			}
+		}
+	}
 	return mayBeNil(ret.Results[idx], map[ssa.Value]bool{})
 }
 
